@@ -23,6 +23,8 @@ type C13Case struct {
 	Net     NetSpec     `json:"net"`
 	Modular *GenomeSpec `json:"modular,omitempty"` // if set, the network is the expression of this modular genome
 	Fast    bool        `json:"fast"`
+	// Direct (fast solver, non-modular): the solver is built with the public constructor, bias links as ordinary connections
+	Direct bool `json:"solver_from_constructor,omitempty"`
 	History []NetOp     `json:"history"`
 	Seq     []NetOp     `json:"sequence"`
 }
@@ -61,6 +63,7 @@ func GenC13() *rapid.Generator[C13Case] {
 	mod := genGenomeSpec(GenomeCfg{Modules: true, MinGenes: 1, SingleOutMod: true, ModestWeight: true, AllEnabled: false})
 	return rapid.Custom(func(t *rapid.T) C13Case {
 		c := C13Case{Fast: rapid.Bool().Draw(t, "fast solver")}
+		c.Direct = c.Fast && rapid.IntRange(0, 3).Draw(t, "solver from constructor") == 0
 		nIn, nSensors := 0, 0
 		switch rapid.IntRange(0, 5).Draw(t, "topology") {
 		case 0:
@@ -118,6 +121,9 @@ func (c C13Case) fresh() (netOrSolver, error) {
 	}
 	if err != nil {
 		return netOrSolver{}, err
+	}
+	if c.Fast && c.Direct && c.Modular == nil {
+		return netOrSolver{net: net, solver: c.Net.BuildSolverDirect()}, nil
 	}
 	if c.Fast {
 		s, err := net.FastNetworkSolver()
@@ -199,6 +205,9 @@ func CheckC13(c C13Case, rec *Rec) error {
 		rec.Class("network with cycles")
 	default:
 		rec.Class("feed-forward network")
+	}
+	if c.Fast && c.Direct && c.Modular == nil {
+		rec.Class("fast solver built with the public constructor (bias links as ordinary connections)")
 	}
 	if c.Modular == nil && len(c.Net.Nodes) > 130 {
 		rec.Class("network with more than 128 neurons")
